@@ -810,8 +810,17 @@ impl GRLParser {
 
     fn is_balanced_parentheses(&self, text: &str) -> bool {
         let mut count = 0;
+        let mut quote: Option<char> = None;
         for ch in text.chars() {
+            // parentheses inside string literals do not count
+            if let Some(q) = quote {
+                if ch == q {
+                    quote = None;
+                }
+                continue;
+            }
             match ch {
+                '"' | '\'' => quote = Some(ch),
                 '(' => count += 1,
                 ')' => {
                     count -= 1;
